@@ -12,7 +12,7 @@ func TestBounded_C11(t *testing.T) {
 	rounds := 30
 	steps := 120
 	if bTier() == "thorough" {
-		rounds, steps = 120, 200
+		rounds, steps = bScale(120), 200
 	}
 	univ := 48
 	for round := 1; round <= rounds; round++ {
